@@ -206,18 +206,20 @@ func mergeStringAuditInfoMaps(ms ...map[string]*scipipe.AuditInfo) (merged map[s
 }
 
 func sortAuditInfosByStartTime(auditInfosByID map[string]*scipipe.AuditInfo) []*scipipe.AuditInfo {
+	// Note: The audit infos can not be keyed by their start time, since
+	// multiple audit infos can have the same start time (such as the zero
+	// time of audit infos for files without an audit log), in which case all
+	// but one of them would be lost
 	sorted := []*scipipe.AuditInfo{}
-
-	auditInfosByStartTime := map[time.Time]*scipipe.AuditInfo{}
-	startTimes := []time.Time{}
 	for _, ai := range auditInfosByID {
-		auditInfosByStartTime[ai.StartTime] = ai
-		startTimes = append(startTimes, ai.StartTime)
+		sorted = append(sorted, ai)
 	}
-	sort.Slice(startTimes, func(i, j int) bool { return startTimes[i].Before(startTimes[j]) })
-	for _, t := range startTimes {
-		sorted = append(sorted, auditInfosByStartTime[t])
-	}
+	sort.Slice(sorted, func(i, j int) bool {
+		if sorted[i].StartTime.Equal(sorted[j].StartTime) {
+			return sorted[i].ID < sorted[j].ID
+		}
+		return sorted[i].StartTime.Before(sorted[j].StartTime)
+	})
 	return sorted
 }
 
